@@ -24,7 +24,12 @@ THEOREMS = ['ParsecVerif.C39.join_fields',
             'ParsecVerif.C39.parse_queries',
             'ParsecVerif.C39.parse_bundle',
             'ParsecVerif.C39.parse_no_double_free',
-            'ParsecVerif.C39.parseBuggy_double_free_witness']
+            'ParsecVerif.C39.parseBuggy_double_free_witness',
+            'ParsecVerif.C39.appendTail_fresh',
+            'ParsecVerif.C39.handle_parse_reset',
+            'ParsecVerif.C39.handle_parse_empty',
+            'ParsecVerif.C39.handle_last_parse_only',
+            'ParsecVerif.C39.handle_parse_opts']
 IMPL = 'parsec/utils/argv.c, parsec/utils/cmd_line.c'
 ENGINE = 'lean-seq'
 LEVEL = 'proof'
@@ -34,7 +39,8 @@ LEVEL_TEXT = ('Lean 4 theorems, for all byte strings, delimiters, vectors, posit
               'characterisation incl. clamping) and delete always leaves argc equal to the vector length, copy is the identity, and parse of any well-formed command line (declared '
               'options with their parameter counts, then nothing / `--` tail / an unrecognised token / an unknown option / an option lacking parameters) reports exactly the option '
               'instances with their parameters in order, exactly the tail and the return code; a bundle of short options parses like its expansion; no parse whatsoever frees a '
-              'parameter vector twice. Three defects found by this check were repaired in /repo (8e71ed6, ecccfcb, 16257ae); the previous behaviour is kept as *Buggy definitions with '
+              'parameter vector twice; one handle parsed any number of times (free_parse_results modelled field by field) answers every query (get_tail count and vector, get_argc/argv, '
+              'get_ninsts/get_param) for the LAST parse only. Three defects found by this check were repaired in /repo (8e71ed6, ecccfcb, 16257ae); the previous behaviour is kept as *Buggy definitions with '
               'witness theorems refuting the statements for it. The models mirror argv.c / cmd_line.c branch by branch and are tied to the current source on every run by corpus and random '
               'operation scripts executed on the real functions (the two source files are compiled into the ASan/UBSan harness) and compared line by line with the compiled Lean model; an '
               'independent Python oracle written from the property text and the header documentation is evaluated on the outputs of the real code.')
@@ -153,9 +159,8 @@ def opt_token(rng, o):
     return rng.choice(forms) if forms else '-?'
 
 
-def gen_parse(rng):
-    tab = gen_table(rng)
-    ign = rng.below(2)
+def gen_argv(rng, tab, tail_mode=None):
+    """argument vector for the option table `tab`; tail_mode: None random, 0 no tail, 1 `--` tail, 2 unknown-token tail"""
     argv = [rng.choice(['prog', 'a.out', '-x'])] if not rng.chance(1, 40) else []
     good = [o for o in tab if o[3] >= 0]
     shorts = [o for o in good if o[0] is not None]
@@ -176,20 +181,76 @@ def gen_parse(rng):
             need = sum(o[3] for o in letters)
             have = need if not rng.chance(1, 5) else rng.range(0, need)
             argv += [gen_param(rng) for _ in range(have)]
-        elif r == 17:
+        elif r == 17 and tail_mode is None:
             argv.append(rng.choice(['-z', '--zeta', '-', '-zz', '--']))
-        elif r == 18:
+        elif r == 18 and tail_mode is None:
             argv.append(gen_word(rng))
-    r = rng.below(6)
+    r = rng.below(6) if tail_mode is None else (5, 0, 1)[tail_mode]
     if r == 0:
-        argv += ['--'] + [gen_word(rng) for _ in range(rng.range(0, 3))]
+        argv += ['--'] + [gen_word(rng) for _ in range(rng.range(0 if tail_mode is None else 1, 3))]
     elif r == 1:
         argv += [rnd_str(rng, 'tuv', 1, 3)] + [gen_word(rng) for _ in range(rng.range(0, 3))]
-    words = ['parse', str(ign), str(len(tab))]
+    return argv
+
+
+def table_words(tab):
+    words = []
     for sh, sd, lg, np_ in tab:
         words += [str(ord(sh)) if sh else '0', enc(sd), enc(lg), str(np_)]
-    words += [enc(a) for a in argv]
-    return ' '.join(words)
+    return words
+
+
+def gen_parse(rng):
+    tab = gen_table(rng)
+    return ' '.join(['parse', str(rng.below(2)), str(len(tab))] + table_words(tab) + [enc(a) for a in gen_argv(rng, tab)])
+
+
+def gen_queries(rng, tab, n):
+    ops = []
+    names = [x for o in tab for x in names_of(o)] + ['zz', 'a', '']
+    for _ in range(n):
+        r = rng.below(10)
+        if r < 2:
+            ops.append('hdump')
+        elif r < 5:
+            ops.append('htail')
+        elif r < 7:
+            ops.append('hninsts ' + enc(rng.choice(names)))
+        elif r < 9:
+            ops.append('hparam %s %d %d' % (enc(rng.choice(names)), rng.below(3), rng.below(4)))
+        else:
+            ops.append('hargv %d' % rng.range(-1, 8))
+    return ops
+
+
+def gen_handle(rng):
+    """ONE handle parsed 2..4 times (free_parse_results between), with and without tail, options added in between, queried after each"""
+    tab = gen_table(rng)
+    ops = ['hnew %d %s' % (len(tab), ' '.join(table_words(tab)))]
+    tab = [o for o in tab]
+    ok = []
+    for o in tab:          # the harness stops at the first refused entry
+        if o[3] < 0 or not names_of(o):
+            break
+        ok.append(o)
+    tab = ok
+    modes = [rng.choice([None, 0, 1, 2]) for _ in range(rng.range(2, 4))]
+    if rng.chance(1, 2):   # a parse that leaves a tail directly followed by one that leaves none
+        k = rng.below(len(modes) - 1)
+        modes[k], modes[k + 1] = rng.choice([1, 2]), 0
+    for m in modes:
+        if rng.chance(1, 6) and len(tab) < 8:
+            extra = gen_table(rng)[:1]
+            for o in extra:
+                ops.append('haddopt ' + ' '.join(table_words([o])))
+                if o[3] >= 0 and names_of(o):
+                    tab.append(o)
+        if rng.chance(1, 15):
+            ops.append('hparse %d' % rng.below(2))      # argc == 0: nothing may change
+        else:
+            ops.append(' '.join(['hparse', str(rng.below(2))] + [enc(a) for a in gen_argv(rng, tab, m)]))
+        ops += gen_queries(rng, tab, rng.range(0, 3))
+    return ops
 
 
 def gen_case(rng, length):
@@ -197,6 +258,9 @@ def gen_case(rng, length):
     n_guess = 0
     for _ in range(length):
         r = rng.below(100)
+        if rng.chance(1, 12):
+            ops += gen_handle(rng)
+            continue
         if r < 8:
             k = rng.range(0, 6)
             ops.append(' '.join(['setv'] + [enc(gen_word(rng)) for _ in range(k)])); n_guess = k
@@ -333,7 +397,7 @@ def ref_parse(ign, tab, argv):
 
 def parse_result(r):
     """decode the harness result line of a parse op"""
-    m = re.match(r'rc=(-?\d+) argv=(\d+):(\[.*?\])(!count=\d+)? tail=(-?\d+):(NULL|\[.*?\]) q=(.*)$', r)
+    m = re.match(r'(?:rc=(-?\d+) )?argv=(-?\d+):(\[.*?\])(!count=\d+)? tail=(-?\d+):(NULL|\[.*?\]) q=(.*)$', r)
     if not m:
         return None
     q = {}
@@ -354,8 +418,130 @@ def parse_result(r):
             i += 1
             il.append(ps)
         q[key] = (n, il, bad)
-    return {'rc': int(m.group(1)), 'argc': int(m.group(2)), 'argv': dec_vec(m.group(3)), 'countbad': m.group(4),
+    return {'rc': int(m.group(1)) if m.group(1) is not None else None, 'argc': int(m.group(2)), 'argv': dec_vec(m.group(3)), 'countbad': m.group(4),
             'tailc': int(m.group(5)), 'tail': dec_vec(m.group(6)), 'q': q}
+
+
+def find_in(tab, name):
+    for k, o in enumerate(tab):
+        if name in (o[1], o[2]) or (len(name) == 1 and name == o[0]):
+            return k
+    return None
+
+
+def table_clear(tab):
+    allnames = [n for o in tab for n in names_of(o)]
+    return len(allnames) == len(set(allnames))
+
+
+EMPTY_REF = {'ok': True, 'insts': {}, 'tail': [], 'argv': [], 'clear': True}
+
+
+def check_dump(o, res, tab, ref, fails):
+    """`reports each declared option with its parameters and leaves the remaining arguments as the tail`, evaluated on a dump
+    (argv through get_argc/get_argv, tail through get_tail, instances through get_ninsts/get_param) against the reference `ref`."""
+    if res['countbad'] or res['argc'] != len(res['argv']):
+        fails.append((None, '%s: get_argc disagrees with the stored vector' % o))
+    if any(v[2] for v in res['q'].values()):
+        fails.append((None, '%s: is_taken disagrees with get_ninsts' % o))
+    if (res['tail'] or []) and res['argv'][-len(res['tail']):] != res['tail']:
+        fails.append((None, '%s: the tail %r is not the end of the argument vector %r' % (o, res['tail'], res['argv'])))
+    if res['tailc'] != len(res['tail'] or []):
+        fails.append((None, '%s: tail count %d but %d tail strings (%r)' % (o, res['tailc'], len(res['tail'] or []), res['tail'])))
+    if ref is None or not ref['clear'] or not table_clear(tab):
+        return
+    if res['rc'] is not None and (res['rc'] == 0) != ref['ok']:
+        fails.append((None, '%s: return code %d, expected %s' % (o, res['rc'], 'success' if ref['ok'] else 'an error')))
+    if (res['tail'] or []) != ref['tail']:
+        fails.append((None, '%s: tail %r, expected %r (the tail of the last parse)' % (o, res['tail'], ref['tail'])))
+    if res['argv'] != ref['argv']:
+        fails.append((None, '%s: stored argv %r, expected %r' % (o, res['argv'], ref['argv'])))
+    for k, ob in enumerate(tab):
+        for form, name in zip('sdl', ob[:3]):
+            if name is None:
+                continue
+            got = res['q'].get('%d%s' % (k, form))
+            want = ref['insts'].get(k, [])
+            if got is None or got[0] != len(want) or got[1] != want:
+                fails.append((None, '%s: option %d queried as %r reports %r, expected the instances of the last parse %r' % (o, k, name, got, want)))
+
+
+def oracle_handle(o, w, r, st, fails):
+    """ops on the persistent handle; st = dict(tab, ref) or None.  Every query must answer for the LAST parse only."""
+    op = w[0]
+    if op == 'hnew':
+        m = re.match(r'hrc=(-?\d+) nopts=(\d+)$', r)
+        p = parse_op_words('parse 0 ' + ' '.join(w[1:]))
+        if not m or p is None:
+            fails.append((None, '%s: unreadable result %s' % (o, r))); return None
+        tab = []
+        for e in p[1]:
+            if e[3] < 0 or not names_of(e):
+                break
+            tab.append(e)
+        if int(m.group(2)) != len(tab) or (int(m.group(1)) == 0) != (len(tab) == len(p[1])):
+            fails.append((None, '%s: %s, expected %d accepted option(s)' % (o, r, len(tab))))
+        return {'tab': tab, 'ref': dict(EMPTY_REF)}
+    if st is None:
+        return None
+    tab, ref = st['tab'], st['ref']
+    if op == 'haddopt':
+        m = re.match(r'(-?\d+) nopts=(\d+)$', r)
+        p = parse_op_words('parse 0 1 ' + ' '.join(w[1:]))
+        if not m or p is None:
+            fails.append((None, '%s: unreadable result %s' % (o, r))); return st
+        e = p[1][0]
+        good = e[3] >= 0 and bool(names_of(e))
+        if (int(m.group(1)) == 0) != good or int(m.group(2)) != len(tab) + (1 if good else 0):
+            fails.append((None, '%s: %s, option %s' % (o, r, 'is valid' if good else 'must be refused')))
+        if good:
+            tab.append(e)
+        return st
+    if op == 'hparse':
+        res = parse_result(r)
+        argv = [dec(x) for x in w[2:]]
+        if res is None:
+            fails.append((None, '%s: unreadable result %s' % (o, r))); return st
+        if argv:
+            st['ref'] = ref = ref_parse(int(w[1]), list(tab), argv)
+        elif res['rc'] != 0:
+            fails.append((None, '%s: argc == 0 must succeed' % o))
+        if not argv:
+            res['rc'] = None
+        check_dump(o, res, tab, ref, fails)
+        return st
+    if op == 'hdump':
+        res = parse_result(r)
+        if res is None:
+            fails.append((None, '%s: unreadable result %s' % (o, r)))
+        else:
+            check_dump(o, res, tab, ref, fails)
+        return st
+    if not ref['clear'] or not table_clear(tab):
+        return st
+    if op == 'htail':
+        c, v = r.split(':', 1)
+        v = dec_vec(v) or []
+        if int(c) != len(ref['tail']) or v != ref['tail']:
+            fails.append((None, '%s: %s, expected count %d and tail %r of the last parse' % (o, r, len(ref['tail']), ref['tail'])))
+    elif op == 'hninsts':
+        k = find_in(tab, dec(w[1]))
+        want = len(ref['insts'].get(k, [])) if k is not None else 0
+        if int(r) != want:
+            fails.append((None, '%s: %s, the last parse has %d instance(s)' % (o, r, want)))
+    elif op == 'hparam':
+        k = find_in(tab, dec(w[1]))
+        inst, idx = int(w[2]), int(w[3])
+        il = ref['insts'].get(k, []) if k is not None else []
+        want = il[inst][idx] if inst < len(il) and idx < len(il[inst]) else None
+        if dec(r) != want:
+            fails.append((None, '%s: %s, expected %r from the last parse' % (o, r, want)))
+    elif op == 'hargv':
+        i = int(w[1])
+        want = ref['argv'][i] if 0 <= i < len(ref['argv']) else None
+        if dec(r) != want:
+            fails.append((None, '%s: %s, expected %r' % (o, r, want)))
+    return st
 
 
 def is_df_class(op):
@@ -376,10 +562,14 @@ def oracle(ops, impl):
     first component is always None (kept for the tuple shape)."""
     fails = []
     vec, argc = None, 0
+    hstate = None
     for o, r in zip(ops, impl):
         if r in ('rejected', 'bad-op', '<no-result>', 'ok'):
             if o.startswith('case'):
                 vec, argc = None, 0
+                hstate = None
+            elif o.startswith('h') and hstate is not None and r == 'rejected' and o.split()[0] in ('hdump', 'htail'):
+                fails.append((None, '%s: refused on a live handle' % o))
             continue
         w = o.split()
         op = w[0]
@@ -410,33 +600,10 @@ def oracle(ops, impl):
             if res is None:
                 fails.append((None, '%s: unreadable result %s' % (o, r))); continue
             ign, tab, argv = p
-            if res['countbad'] or res['argc'] != len(res['argv']):
-                fails.append((None, '%s: get_argc disagrees with the stored vector: %s' % (o, r)))
-            if any(v[2] for v in res['q'].values()):
-                fails.append((None, '%s: is_taken disagrees with get_ninsts' % o))
-            if (res['tail'] or []) and res['argv'][-len(res['tail']):] != res['tail']:
-                fails.append((None, '%s: the tail %r is not the end of the argument vector %r' % (o, res['tail'], res['argv'])))
-            if res['tailc'] != len(res['tail'] or []):
-                fails.append((None, '%s: tail count %d but %d tail strings' % (o, res['tailc'], len(res['tail'] or []))))
-            if not argv:
-                continue
-            ref = ref_parse(ign, tab, argv)
-            if not ref['clear']:
-                continue
-            if (res['rc'] == 0) != ref['ok']:
-                fails.append((None, '%s: return code %d, expected %s' % (o, res['rc'], 'success' if ref['ok'] else 'an error')))
-            if (res['tail'] or []) != ref['tail']:
-                fails.append((None, '%s: tail %r, expected %r' % (o, res['tail'], ref['tail'])))
-            if res['argv'] != ref['argv']:
-                fails.append((None, '%s: stored argv %r, expected %r' % (o, res['argv'], ref['argv'])))
-            for k, ob in enumerate(tab):
-                for form, name in zip('sdl', ob[:3]):
-                    if name is None:
-                        continue
-                    got = res['q'].get('%d%s' % (k, form))
-                    want = ref['insts'][k]
-                    if got is None or got[0] != len(want) or got[1] != want:
-                        fails.append((None, '%s: option %d queried as %r reports %r, expected instances %r' % (o, k, name, got, want)))
+            check_dump(o, res, tab, ref_parse(ign, tab, argv) if argv else None, fails)
+            continue
+        if op[0] == 'h':
+            hstate = oracle_handle(o, w, r, hstate, fails)
             continue
         # ---- stateful vector ops: result carries the state after the call
         m = re.match(r'(?:(-?\d+) )?argc=(-?\d+) v=(NULL|\[.*\])$', r)
@@ -524,8 +691,10 @@ def interesting(op, r):
         return False
     if op.startswith('split'):
         return r.count(' ') >= 2
-    if op.startswith('parse'):
+    if op.startswith('parse') or op.startswith('hparse') or op.startswith('hdump'):
         return ' ( ' in r or 'tail=0' not in r
+    if op[0] == 'h':
+        return False
     return '[' in r and ' ' in r.split('v=')[-1]
 
 
@@ -595,7 +764,8 @@ def run(ctx, res, cases=None):
     res.rule = ('corpus cases first, then random operation scripts (4..30 ops quick / 4..60 thorough) mixing vector ops (setv/append/prepend/append_unique/insert/insert_element/delete/'
                 'count/len/copy/join/join_range on one live vector with positions from -1 to count+2), split/split_with_empty of strings dense in delimiters (incl. empty, all-delimiter, '
                 'fields of 126..300 bytes around the 128-byte buffer, bytes >= 128) and parse of generated option tables (0..6 options, 0..3 parameters, name collisions 1/6) with mostly '
-                'well-formed command lines (all name forms, bundles, tails) plus malformed ones; executed on the real functions under ASan+UBSan. distinct = distinct script; '
+                'well-formed command lines (all name forms, bundles, tails) plus malformed ones, and blocks on ONE persistent handle (hnew, then 2..4 hparse with/without tail incl. tail directly followed by no tail, '
+                'options added in between, argc==0 parses, each followed by hdump/htail/hninsts/hparam/hargv queries); executed on the real functions under ASan+UBSan. distinct = distinct script; '
                 'non-trivial = at least two ops produced a multi-element vector / a parse with instances or a tail')
     res.samples = [{'ops': r['ops'][:8], 'impl': r['impl'][:8]} for r in results_all[len(corpus):len(corpus) + 2]] + [{'ops': r['ops'], 'impl': r['impl']} for r in results_all[:1]]
     nparse = [o for r in results_all for o in r['ops'] if o.startswith('parse')]
@@ -605,7 +775,9 @@ def run(ctx, res, cases=None):
         'parse_ops': len(nparse), 'parse_rc_error': sum(1 for r in results_all for x in r['impl'] if x.startswith('rc=-1')),
         'parse_with_tail': sum(1 for r in results_all for x in r['impl'] if x.startswith('rc=') and 'tail=0:' not in x),
         'parse_with_instances': sum(1 for r in results_all for x in r['impl'] if x.startswith('rc=') and ' ( ' in x),
-        'parse_special_token_after_saved_param': n_partial_special, 'harness_stats': stats_all,
+        'parse_special_token_after_saved_param': n_partial_special,
+        'handle_reparses': sum(max(0, sum(1 for o in seg if o.startswith('hparse')) - 1) for r in results_all for seg in ' ; '.join(r['ops']).split('hnew ')[1:] for seg in [seg.split(' ; ')]),
+        'handle_tail_then_no_tail': sum(1 for r in results_all for a, b in zip([x for o, x in zip(r['ops'], r['impl']) if o.startswith('hparse')], [x for o, x in zip(r['ops'], r['impl']) if o.startswith('hparse')][1:]) if 'tail=0:' not in a and 'tail=0:' in b), 'harness_stats': stats_all,
     }
 
 
